@@ -107,7 +107,23 @@ META = {
         assumptions=["float-as-real: symbolic float obligations are discharged over the reals; rounding is covered only by "
                      "the concrete vocabulary cases and the run-time battery"],
     ),
+    "C10": dict(
+        claimed=True, level="other",
+        technique="contract-based deductive verification of the integer/ordering core of Note; text, Helmholtz and Hz forms by bounded run-time contracts",
+        level_text="Proved for every name (any accidental string) and every octave: int(note) == 12*octave + letter + sharps - flats "
+                   "(loop invariant); all six comparison operators agree with comparing those integers; measure; from_int for every "
+                   "integer >= 0 (pitch equals the integer, sharp-style name); set_velocity/set_channel reject exactly the values "
+                   "outside 0..127 / 0..15; set_note / Note(name, octave) for names without an octave suffix store name and octave "
+                   "and reject every malformed name with the note-format error. NOT proved (bounded stand-in, real code under "
+                   "CPython): the 'Name-octave' text form, the printed form, the copy constructor, Helmholtz shorthand both ways "
+                   "(names with <= 2 accidentals x octaves 0..9, exhaustive) and Hz conversion (notes 0..127 x standard pitches x "
+                   "detuning, IEEE doubles and math.log are outside the verifier).",
+        level_note=TB + " The claim is split: see coverage.explanation; bounded parts are under coverage.bounded_driver.",
+        explanation="Deductive: Note.__int__, __lt__/__eq__/__ne__/__gt__/__le__/__ge__, measure, from_int, set_channel, set_velocity, "
+                    "set_note and __init__ (no-dash names). Bounded: text forms, copy, Helmholtz round trip, Hz round trip "
+                    "(12.8k cases, quick tier). Former deviation repaired in /repo: e51ef4c (Helmholtz flats).",
+    ),
 }
 
 _NOT_YET = "not yet brought under contract in this build step (see DESIGN.md §9 for the plan); nothing is claimed"
-NOT_APPLICABLE = dict(("C%02d" % i, _NOT_YET) for i in [7, 8] + list(range(10, 21)))
+NOT_APPLICABLE = dict(("C%02d" % i, _NOT_YET) for i in [7, 8] + list(range(11, 21)))
